@@ -134,8 +134,8 @@ def s1(tier):
                     for c in pin_menu(fn, f, idxs=(0, 1, -1, -2, 7, -8) if tier == 'thorough' else (0, -1, 1, 7)):
                         conss.append([c])
                 size = crossing_size(fm, cr)
-                for mt in (size + 1, size * 2, size * 2 + 1):
-                    if mt <= (9 if nb == 2 else 7):
+                for mt in (size + 1, size * 2 - 1, size * 2, size * 2 + 1):
+                    if size < mt <= (9 if nb == 2 else 7):
                         conss.append([{'c': 'MinimumTrials', 'k': mt}])
                 # Sequential on a basic crossed factor without preamble (A1)
                 pre = any('deps' in fm[c] and fm[c]['width'] > 1 for c in cr)
@@ -208,10 +208,16 @@ def s2(tier):
                     if tier == 'thorough':
                         conss.append([{'c': 'AtMostKInARow', 'k': 1, 'factor': fn, 'level': None}])
                         conss.append([{'c': 'AtLeastKInARow', 'k': 2, 'factor': fn, 'level': names_of(fm[fn])[1]}])
-                if size + 1 <= 7:
-                    conss.append([{'c': 'MinimumTrials', 'k': size + 1}])
+                for mt in sorted(set([size + 1, size + 2, 2 * size - 1, 2 * size + 1])):
+                    if size < mt <= 8:
+                        conss.append([{'c': 'MinimumTrials', 'k': mt}])
                 for cs in conss:
                     out.append(spec(factors, cross(names, cr, cs), 'S2'))
+                # the same weighted crossing repeated, with whole and partial last repetition
+                if D is None and size <= 3:
+                    for mt in (2 * size, 2 * size + 1, 2 * size + 2):
+                        out.append(spec(factors, {'op': 'repeat', 'block': cross(names, cr, []),
+                                                  'constraints': [{'c': 'MinimumTrials', 'k': mt}]}, 'S2'))
     return out
 
 
@@ -224,10 +230,13 @@ def s3(tier):
     wins = []
     for width in (2, 3):
         for stride in (1, 2):
-            for start in (None, 0, width, width + 1):
-                if start == 0 and width > 2:
-                    # A8: early start with width 3 only with an ElseLevel
+            for start in (None, 0, width, width + 1) + ((1,) if width > 2 else ()):
+                if start in (0, 1) and width > 2:
+                    # A8: early start with width 3 only with an ElseLevel; two tables: one ignores and one reads the oldest
+                    # (possibly missing) input
                     wins.append(window('N', ['A'], fm0, width, lambda k: 0 if (k[-1] == k[-2] and '~' not in k) else None,
+                                       stride=stride, start=start, else_idx=1, dep_none=True))
+                    wins.append(window('N', ['A'], fm0, width, lambda k: 0 if (k[0] == '~' or k[0] == k[-1]) else None,
                                        stride=stride, start=start, else_idx=1, dep_none=True))
                     continue
                 wins.append(window('N', ['A'], fm0, width, repeat_last2, stride=stride, start=start, dep_none=(start == 0)))
@@ -463,24 +472,94 @@ def s9(tier):
 STRATA = {'S9': s9, 'S1': s1, 'S1x': s1_exclude, 'S2': s2, 'S3': s3, 'S4': s4, 'S5': s5, 'S6': s6}
 
 
+def shape_key(d):
+    """Coarse shape class of a design (names abstracted to kinds): stratified thinning keeps every class represented."""
+    b = d['block']
+    fm = {f['name']: f for f in d['factors']}
+    parts = []
+    crossed = set()
+
+    def collect(x):
+        for c in ([x.get('crossing')] if x.get('crossing') is not None else []) + list(x.get('crossings', [])):
+            crossed.update(c)
+        for k in ('block', 'outer', 'inner'):
+            if k in x:
+                collect(x[k])
+        for y in x.get('blocks', []):
+            collect(y)
+    collect(b)
+
+    def kind(n):
+        f = fm[n]
+        w = 'W' if any(x > 1 for _, x in f['levels']) else ''
+        base = (f['kind'] + str(f['width']) + 's' + str(f['stride']) + ('e' if f.get('start') not in (None,) else '')) if 'deps' in f else 'basic' + str(len(f['levels']))
+        return base + w + ('x' if n in crossed else 'u')
+
+    def walk(x):
+        cs = []
+        for c in x.get('constraints', []):
+            k = c['c']
+            if k == 'MinimumTrials':
+                k += str(c['k'])
+            elif 'k' in c:
+                k += ('>1' if c['k'] > 1 else '1') + ('L' if c.get('level') else 'F') + kind(c['factor'])
+            elif k == 'Pin':
+                k += ('neg' if c['index'] < 0 else 'pos') + kind(c['factor'])
+            elif 'factor' in c:
+                k += kind(c['factor'])
+            cs.append(k)
+        cr = [tuple(sorted(kind(n) for n in x['crossing']))] if 'crossing' in x else [tuple(sorted(kind(n) for n in c)) for c in x.get('crossings', [])]
+        parts.append((x['op'], tuple(cr), tuple(sorted(cs)), x.get('mode'), x.get('alignment'), x.get('rcc', True)))
+        for k in ('block', 'outer', 'inner'):
+            if k in x:
+                walk(x[k])
+        for y in x.get('blocks', []):
+            walk(y)
+    walk(b)
+    fs = tuple(sorted(kind(f['name']) + ('else' if f.get('else') is not None else '') for f in d['factors']))
+    return repr((parts, fs))
+
+
+def thin(ds, cap, seed):
+    """Round-robin over shape classes (simplest-first inside a class, rotated by the seed) until `cap` designs."""
+    groups = {}
+    order = []
+    for d in ds:
+        k = shape_key(d)
+        if k not in groups:
+            groups[k] = []
+            order.append(k)
+        groups[k].append(d)
+    if len(order) > cap:
+        # more classes than budget: evenly spaced classes (offset rotates with the seed), first member of each
+        step = len(order) / float(cap)
+        off = (seed % max(1, int(step))) if step >= 2 else 0
+        idx = sorted(set(min(len(order) - 1, int(i * step) + off) for i in range(cap)))
+        return [groups[order[i]][seed % len(groups[order[i]])] for i in idx]
+    out = []
+    depth = 0
+    while len(out) < cap:
+        added = False
+        for k in order:
+            g = groups[k]
+            if depth < len(g):
+                out.append(g[(depth + seed) % len(g)] if depth == 0 else g[depth])
+                added = True
+                if len(out) >= cap:
+                    break
+        if not added:
+            break
+        depth += 1
+    return out
+
+
 def designs(strata, tier, seed=0, quick_fraction=None):
-    """All designs of the given strata. In quick tier the larger strata are thinned deterministically to a fixed core
-    (every k-th design, simplest first) plus a seed-rotated slice."""
+    """All designs of the given strata. In quick tier the larger strata are thinned deterministically: round-robin over
+    shape classes (fixed core = one member of every class while the cap allows), the member chosen rotates with the seed."""
     out = []
     for s in strata:
         ds = STRATA[s](tier)
         if tier == 'quick' and quick_fraction and len(ds) > quick_fraction.get(s, 10 ** 9):
-            cap = quick_fraction[s]
-            step = -(-len(ds) // cap)
-            core = ds[::step]
-            rot = ds[(seed % step)::step] if step > 1 else []
-            seen = set()
-            sel = []
-            for d in core + rot:
-                k = id(d)
-                if k not in seen:
-                    seen.add(k)
-                    sel.append(d)
-            ds = sel
+            ds = thin(ds, quick_fraction[s], seed)
         out += ds
     return out
